@@ -390,7 +390,10 @@ def _reindex_post_for_stub(orig_post):
 
 def _gaa_bind(arrays, join="outer", axis=None, sort=False, strict=False):
     if strict:
-        raise NotImplementedError("strict")
+        # strict=True only adds a ValueError when some array lacks an aligned dimension: inside the contract when none does
+        wanted = [axis] if isinstance(axis, str) else sorted({ax.name for o in arrays for ax in o.axes})
+        if not all(d in o.dims for o in arrays for d in wanted):
+            raise NotImplementedError("strict with an array lacking a dimension")
     dims = []
     for o in arrays:
         for ax in o.axes:
